@@ -12,7 +12,7 @@ hz=$base/$name-h
 mkdir -p $base
 git -C /repo worktree remove --force $wt >/dev/null 2>&1
 rm -rf $wt $hz
-git -C /repo worktree add --detach $wt HEAD >/dev/null 2>&1 || { echo "worktree failed"; exit 2; }
+git -C /repo worktree add --detach $wt ${SEED_REPO_REV:-HEAD} >/dev/null 2>&1 || { echo "worktree failed"; exit 2; }
 # include uncommitted state of /repo? no: mutants are relative to HEAD
 while [ $# -gt 0 ]; do
   if [ "$1" = "-e" ]; then
